@@ -65,6 +65,17 @@ def configs(tier):
                     if entry == 'Gillespie_SIS':
                         c['truncate'] = True
                     out.append(c)
+    # a node named in both containers (it starts recovered): still nobody may edit the caller's containers
+    for entry in CONT_SIR + DISC:
+        if 'SIR' not in entry:
+            continue
+        for style in ('list', 'set'):
+            for full in (False, True):
+                c = dict(family='sim', entry=entry, graph='P3', I0=[0, 1], R0=[1, 2], full=full, ic_style=style, r_style='list', weights='none',
+                         wstub='abstract', tags=['sim', 'P3', style, 'overlap', 'full' if full else 'plain'])
+                sim_bounds(entry, c, tier)
+                c.pop('zero_duration', None)
+                out.append(c)
     for zero in (None, 'tau', 'gamma'):
         for R0 in ([], [1]):
             out.append(dict(family='infnodes', entry='get_infected_nodes', graph='P3', I0=[0], R0=R0, zero=zero, tags=['infnodes', 'zero:%s' % zero] + (['R0'] if R0 else [])))
